@@ -93,6 +93,10 @@ pub fn small_logical(rng: &mut Rng, codec: u8) -> Logical {
     l.meta.insert(String::from("name"), Value::String(String::from("fault injection")));
     l.meta.insert(String::from("vector_layers"), Value::Array(vec![Value::String(String::from("water"))]));
     l.tile_type = (rng.below(6)) as u8;
+    // tiles whose ids have no z/x/y coordinates (beyond zoom 31)
+    let c = Rc::new(rng.bytes(23));
+    l.tiles.insert(gen::id_domain() + 5, c.clone());
+    l.tiles.insert(u64::MAX - 9, c);
     l
 }
 
@@ -295,7 +299,8 @@ pub fn scenarios(ctx: &Ctx, rng: &mut Rng) -> Vec<Scenario> {
             // ---- lookups on an archive opened fault-free (faults start after the open)
             for asyncm in [false, true] {
                 let b = bytes.clone();
-                let ids: Vec<u64> = l.tiles.keys().copied().step_by((l.tiles.len() / 12).max(1)).collect();
+                let mut ids: Vec<u64> = l.tiles.keys().copied().step_by((l.tiles.len() / 12).max(1)).collect();
+                ids.extend(l.tiles.keys().rev().take(2)); // the highest ids (the small archives hold ids beyond zoom 31)
                 // number of operations the open itself takes
                 let open_ops = {
                     let mut s = Inst::new(b.as_ref().clone());
